@@ -135,6 +135,8 @@ def content_for(rng):
         return (b"line of text TODO here\n" * 50000)[:1024 * 1024 + rng.randrange(3)]
     if c < 0.7:
         return b"#" + b"!x" * 3
+    if c < 0.78:       # words that are also column names, and digits that could be mistaken for a column's value
+        return b"Size Path Name 19 Mode\n" + b"%d\n" % rng.choice([23, 24, 25, 100])
     return b"".join(b"text line %d with needle-%d\n" % (i, i % 7) for i in range(rng.choice([1, 3, 10, 200])))
 
 
@@ -224,8 +226,10 @@ def job_tree(res, rng, w, home, job):
     res.count("metadata_rows_checked", len(rows))
     res.sample({"kind": "tree", "tz": tz, "row": dict(list(dict(zip(cols, rows[0])).items())[:10])}, cap=1)
     # content columns on regular files (and whatever else: the statement says every entry)
-    needle = rng.choice(["needle-3", "TODO", "text line", "zzz-not-there", "#!"])
-    ccols = ["path", "sha1", "sha256", "sha512", "sha3", "line_count", "is_shebang", "contains(%s)" % model.quote_lit(needle)]
+    needle = rng.choice(["needle-3", "TODO", "text line", "zzz-not-there", "#!", "Size", "Path", "Name", "Sha1", "Mode"])
+    # the needle may be spelled like a column that the same query selects: it is still a piece of text
+    ccols = ["path"] + (["size", "name", "mode"] if needle[0].isupper() and needle != "TODO" else []) + [
+        "sha1", "sha256", "sha512", "sha3", "line_count", "is_shebang", "contains(%s)" % model.quote_lit(needle)]
     where = None if job.get("fifo") else "not is_pipe"
     rows, ctx = run_cols(res, w, home, ccols, "t", where=where, extra_ok="fifo" if job.get("fifo") else None)
     if rows is None:
